@@ -250,6 +250,39 @@ def opPolicy (j : Json) : Json :=
     ("spec", Json.mkObj [("raised", toJson sp.raised), ("stopped", toJson sp.stopped), ("valid", toJson sp.valid),
                          ("collected", toJson sp.collected), ("printed", toJson sp.printed)])]
 
+/-! op `files`: an operation history over the named-files store; contents are numbered by the
+    harness (distinct bytes ↦ distinct numbers) and the model's hash is the identity on them -/
+def fileOpOfJson (j : Json) : Files.Op Nat :=
+  let o := getStr j "op"
+  if o == "add" then .add (getStr j "name") (getStr j "src") (getNat j "content")
+  else if o == "remove" then .remove (getStr j "name")
+  else if o == "mutate" then .mutateSource (getStr j "src") (getNat j "content")
+  else .newInstance
+
+def jsonOfStore (s : Files.Store Nat Nat) (names : List String) : Json :=
+  Json.mkObj [("names", toJson (Files.names s)),
+    ("state", Json.arr (names.map (fun n =>
+      Json.mkObj [("name", toJson n),
+        ("get", match Files.get s n with
+          | some (src, d) => Json.arr #[toJson src, toJson d]
+          | none => Json.null),
+        ("bytes", match Files.bytes s n with | some c => toJson c | none => Json.null),
+        ("manifest", match Files.lookup s n with
+          | some d => Json.arr (d.manifest.map (fun e => Json.arr #[toJson e.fingerprint, toJson e.fileHome])).toArray
+          | none => Json.null),
+        ("files", match Files.lookup s n with
+          | some d => Json.arr (d.files.map (fun f => Json.arr #[toJson f.1.1, toJson f.1.2, toJson f.2])).toArray
+          | none => Json.null)])).toArray)]
+
+def opFiles (j : Json) : Json :=
+  let ops := (getArr j "ops").toList.map fileOpOfJson
+  let names := (getArr j "names").toList.map (fun x => match x with | .str s => s | _ => "")
+  let init : Files.Store Nat Nat := []
+  let states := ops.foldl (fun (acc : Files.Store Nat Nat × List Json) op =>
+      let s' := Files.step (fun c => c) acc.1 op
+      (s', acc.2 ++ [jsonOfStore s' names])) (init, [])
+  Json.mkObj [("after", Json.arr states.2.toArray)]
+
 def handle (line : String) : Json :=
   match Json.parse line with
   | .error e => Json.mkObj [("error", toJson s!"bad-json: {e}")]
@@ -261,6 +294,7 @@ def handle (line : String) : Json :=
     else if op == "meta" then opMeta j
     else if op == "assign" then opAssign j
     else if op == "policy" then opPolicy j
+    else if op == "files" then opFiles j
     else Json.mkObj [("error", toJson s!"bad-op: {op}")]
 
 partial def loop (h : IO.FS.Stream) (out : IO.FS.Stream) : IO Unit := do
